@@ -989,6 +989,277 @@ def check_copy(w, ph, c, viol, si):
 
 
 # --------------------------------------------------------------------------
+# error paths: a REJECTED assignment must not leave an object that answers from a superseded or half-updated state
+# --------------------------------------------------------------------------
+
+def answers_or_errors(p):
+    """every kind of query: ("ok", numbers) or ("raise", exception name)"""
+    out = {}
+
+    def att(name, f):
+        try:
+            out[name] = ("ok", f())
+        except Exception as e:  # noqa: BLE001
+            out[name] = ("raise", type(e).__name__ + ": " + str(e)[:80])
+
+    def q1():
+        p.run_qpoints(QS)
+        return p.qpoints.frequencies.copy()
+
+    def q2():
+        p.run_qpoints(QS_GV, with_group_velocities=True)
+        return p.qpoints.group_velocities.copy()
+
+    att("frequencies", q1)
+    att("group velocities", q2)
+    att("band", lambda: run_derived(p, "band"))
+    att("mesh", lambda: run_derived(p, "mesh"))     # a new mesh: thermal properties / DOS below are made from it, not from an older one
+    for kind in ("tp", "dos"):
+        if out["mesh"][0] == "ok":
+            att(kind, lambda kind=kind: run_derived(p, kind))
+        else:
+            out[kind] = out["mesh"]
+    return out
+
+
+def fresh_given_reported(w, ph):
+    """answers of a freshly constructed object given what the getters of `ph` report; None if it cannot even be given that"""
+    fr = w.new_phonopy()
+    try:
+        if ph.masses is not None:
+            fr.masses = np.array(ph.masses)
+        if ph.force_constants is not None:
+            fr.force_constants = np.array(ph.force_constants, dtype="double", order="C")
+        if ph.nac_params is not None:
+            fr.nac_params = _copy.deepcopy(ph.nac_params)
+    except Exception as e:  # noqa: BLE001
+        return None, type(e).__name__ + ": " + str(e)[:80]
+    return answers_or_errors(fr), None
+
+
+def bad_assignments(w):
+    """name -> (setter the finding is filed under, function applying an invalid assignment / call to a Phonopy object)"""
+    ns, npa = w.ns, w.np_
+    good = w.nac_pool[2]
+
+    def forces_without(p):
+        p.dataset = _copy.deepcopy(w.gen_pool[0])
+        p.produce_force_constants()
+
+    return {
+        "nac: Born charges for one atom too many": ("Phonopy.nac_params setter", lambda p: setattr(p, "nac_params", dict(_copy.deepcopy(good), born=np.zeros((npa + 1, 3, 3))))),
+        "nac: Born charges for one atom too few": ("Phonopy.nac_params setter", lambda p: setattr(p, "nac_params", dict(_copy.deepcopy(good), born=np.zeros((npa - 1, 3, 3))))),
+        "nac: dict without 'factor'": ("Phonopy.nac_params setter", lambda p: setattr(p, "nac_params", {k: _copy.deepcopy(v) for k, v in good.items() if k != "factor"})),
+        "nac: dict without 'dielectric'": ("Phonopy.nac_params setter", lambda p: setattr(p, "nac_params", {k: _copy.deepcopy(v) for k, v in good.items() if k != "dielectric"})),
+        "nac: dict without 'born'": ("Phonopy.nac_params setter", lambda p: setattr(p, "nac_params", {k: _copy.deepcopy(v) for k, v in good.items() if k != "born"})),
+        "force constants: a string": ("Phonopy.force_constants setter", lambda p: setattr(p, "force_constants", "abc")),
+        "masses: one too many": ("Phonopy.masses setter", lambda p: setattr(p, "masses", [10.0 + k for k in range(npa + 1)])),
+        "masses: one too few": ("Phonopy.masses setter", lambda p: setattr(p, "masses", [10.0 + k for k in range(npa - 1)])),
+        "masses: strings": ("Phonopy.masses setter", lambda p: setattr(p, "masses", ["a"] * npa)),
+        "dataset: unknown format": ("Phonopy.dataset setter", lambda p: setattr(p, "dataset", {"foo": 1})),
+        "dataset: a string": ("Phonopy.dataset setter", lambda p: setattr(p, "dataset", "abc")),
+        "produce_force_constants without forces": ("Phonopy.produce_force_constants", forces_without),
+        "symmetrize_force_constants(level='x')": ("Phonopy.symmetrize_force_constants", lambda p: p.symmetrize_force_constants(level="x")),
+        "set_force_constants_zero_with_radius('x')": ("Phonopy.set_force_constants_zero_with_radius", lambda p: p.set_force_constants_zero_with_radius("x")),
+    }
+
+
+def error_paths(run, worlds, seed, thorough):
+    import random as _random
+
+    rng = _random.Random(15215 + 7919 * seed)
+    found = {}
+    nq = 0
+    for w in worlds:
+        bads = bad_assignments(w)
+        for cls in ("plain", "wang", "gl"):
+            names = sorted(bads)
+            if not thorough:
+                keep = [n for n in names if n.startswith("nac")]
+                rest = [n for n in names if not n.startswith("nac")]
+                rng.shuffle(rest)
+                names = keep + rest[:5]
+            for name in names:
+                site, bad = bads[name]
+                ph = w.new_phonopy()
+                ph.masses = w.mass_pool[1].copy()
+                ph.force_constants = w.fc_pool[0].copy()
+                ph.dataset = _copy.deepcopy(w.ds_pool[0])
+                if cls != "plain":
+                    ph.nac_params = _copy.deepcopy(w.nac_pool[1 if cls == "wang" else 0])
+                before = answers_or_errors(ph)
+                if any(v[0] != "ok" for v in before.values()):
+                    raise common.Broken("harness", "the valid state before the invalid assignment does not answer: %r" % {k: v[1] for k, v in before.items() if v[0] != "ok"})
+                try:
+                    bad(ph)
+                    raised = None
+                except Exception as e:  # noqa: BLE001
+                    raised = type(e).__name__ + ": " + str(e)[:80]
+                if raised is None:
+                    # accepted: an ordinary (if odd) state change, not an error path; ill-formed arrays are outside the property's inputs
+                    run.count("invalid assignment: %s -> accepted without an exception (not followed up)" % name)
+                    continue
+                steps = [("after the rejected assignment", None)]
+                recover = rng.choice(["nac", "masses", "fc", "nac-none"])
+                steps.append(("after a later valid assignment (%s)" % recover, recover))
+                for label, rec in steps:
+                    if rec == "nac":
+                        todo = lambda: setattr(ph, "nac_params", _copy.deepcopy(w.nac_pool[3 if cls == "wang" else 4]))   # noqa: E731
+                    elif rec == "nac-none":
+                        todo = lambda: setattr(ph, "nac_params", None)   # noqa: E731
+                    elif rec == "masses":
+                        todo = lambda: setattr(ph, "masses", w.mass_pool[2].copy())   # noqa: E731
+                    elif rec == "fc":
+                        todo = lambda: setattr(ph, "force_constants", w.fc_pool[2].copy())   # noqa: E731
+                    else:
+                        todo = None
+                    rec_raised = None
+                    if todo is not None:
+                        try:
+                            todo()
+                        except Exception as e:  # noqa: BLE001
+                            rec_raised = type(e).__name__ + ": " + str(e)[:80]    # allowed: the object may refuse until it is repaired
+                    got = answers_or_errors(ph)
+                    exp, why = fresh_given_reported(w, ph)
+                    for k, (st, val) in got.items():
+                        nq += 1
+                        if st != "ok":
+                            continue      # the query refuses: fine
+                        bad_ = None
+                        if exp is None:
+                            bad_ = "a fresh object cannot be given what the getters report (%s)" % why
+                        elif exp[k][0] != "ok":
+                            bad_ = "a fresh object given what the getters report refuses the query (%s)" % exp[k][1]
+                        elif not close(val, exp[k][1], 1e-6 if k == "group velocities" else TOL):
+                            d = float(np.abs(np.asarray(val) - np.asarray(exp[k][1])).max()) if np.shape(val) == np.shape(exp[k][1]) else float("inf")
+                            same_old = close(val, before[k][1], TOL)
+                            bad_ = "differs by %.3g from a fresh object given what the getters report%s" % (d, " (it is the answer of the state BEFORE the rejected assignment)" if same_old else "")
+                        if bad_:
+                            key = (site, "answers-after-rejected-assignment")
+                            run.count("%s / %s" % key, section="oracle")
+                            if key not in found:
+                                found[key] = ("%s [%s] %s, %s: %s is answered, but %s" % (
+                                    name, raised or "no exception", label, type(ph.dynamical_matrix).__name__ if ph.dynamical_matrix is not None else "no dynamical matrix", k, bad_),
+                                    dict(world=w.describe(), dm_class=cls, invalid=name, exception=raised, later_valid_assignment=rec, later_exception=rec_raised, query=k,
+                                         note="harness/props/c15.py: error_paths; state before: masses mass_pool[1], force constants fc_pool[0], dataset ds_pool[0], NAC nac_pool[1] (wang) / nac_pool[0] (gl)"))
+                run.case(("error-path", w.name, cls, name, recover), nontrivial=True)
+                run.count("invalid assignment: %s -> %s" % (name, "exception" if raised else "accepted"))
+    run.count("queries after invalid assignments (each must refuse or equal a fresh object given what the getters report)", nq, section="oracle")
+    for (site, klass), (what, case) in sorted(found.items()):
+        run.violation(site, klass, what, case)
+
+
+# --------------------------------------------------------------------------
+# copy() of objects built with non-default constructor options (oracle only)
+# --------------------------------------------------------------------------
+
+NONDIAG = [[[2, 1, 0], [0, 2, 0], [0, 0, 1]], [[2, 0, 0], [1, 2, 0], [0, 1, 1]], [[-1, 1, 1], [1, -1, 1], [1, 1, -1]], [[1, 1, 0], [-1, 1, 0], [0, 0, 2]]]
+
+
+def all_answers(p):
+    """every kind of query, on an object that has force constants"""
+    out = {}
+    p.run_qpoints(QS)
+    out["frequencies"] = p.qpoints.frequencies.copy()
+    p.run_qpoints(QS_GV, with_group_velocities=True)
+    out["group velocities"] = p.qpoints.group_velocities.copy()
+    p.run_mesh(MESH)
+    for kind in DERIVED:
+        out[kind] = run_derived(p, kind, 0)
+    return out
+
+
+def option_copies(run, seed, thorough):
+    """copy() yields an independent object THAT ANSWERS LIKE THE ORIGINAL: the same cells (atom order included), and, given
+    the same force constants / NAC parameters / masses, the same results of every query, also for objects built with
+    non-default constructor options in combination; likewise a fresh object built with the same options."""
+    import random as _random
+    from phonopy import Phonopy
+
+    rng = _random.Random(15115 + 7919 * seed)
+    rs = np.random.RandomState(15115 + 7919 * seed)
+    found = {}
+    n = 24 if thorough else 4
+    for i in range(n):
+        crystal = ["triclinic", "nacl", "cscl", "nacl_prim"][i % 4] if i < 4 else rng.choice(["triclinic", "nacl", "cscl", "nacl_prim", "hcp"])
+        cell, _ = gen.make_cell(crystal)
+        opts = dict(use_SNF_supercell=True) if (i % 2 == 0 or rng.random() < 0.5) else {}
+        smat = rng.choice(NONDIAG) if (opts or rng.random() < 0.7) else np.diag(rng.choice([[2, 1, 1], [1, 2, 1], [1, 1, 2]])).tolist()
+        if crystal == "nacl":
+            smat = rng.choice(NONDIAG[:2])      # 8 atoms in the cell: keep the supercell small
+        pmat = "auto" if crystal == "nacl" or rng.random() < 0.3 else "P"
+        for key, val in (("store_dense_svecs", False), ("is_symmetry", False), ("symprec", 1e-3), ("factor", 521.471 * rng.choice([0.5, 1.0, 2.0])),
+                         ("group_velocity_delta_q", 1e-4)):
+            if rng.random() < 0.4:
+                opts[key] = val
+        if i == 1:
+            opts.update(store_dense_svecs=False, is_symmetry=False)
+        case = dict(crystal=crystal, supercell_matrix=smat, primitive_matrix=pmat, options={k: v for k, v in opts.items()})
+
+        def build():
+            return Phonopy(cell, supercell_matrix=np.array(smat), primitive_matrix=pmat, log_level=0, **opts)
+
+        ph = build()
+        ns, npa = len(ph.supercell), len(ph.primitive)
+        fc = gen.pair_fc(ph.supercell, 4.6)
+        fc = np.array(fc * (1.0 + 0.02 * rs.normal(size=fc.shape)), dtype="double", order="C")
+        polar = crystal in ("nacl", "cscl", "nacl_prim") and rng.random() < 0.7
+        nac = None
+        if polar:
+            z = 1.0 + rs.uniform(0, 1)
+            nac = {"born": np.array([np.eye(3) * z * (-1) ** k for k in range(npa)]), "dielectric": np.eye(3) * (2.0 + rs.uniform(0, 1)), "factor": 14.4,
+                   "method": rng.choice(["gonze", "wang"])}
+        masses = np.array(ph.masses) * (1.0 + 0.3 * rs.uniform(size=npa))
+        case["nac"] = None if nac is None else nac["method"]
+
+        def give(p):
+            p.masses = masses.copy()
+            p.force_constants = fc.copy()
+            if nac is not None:
+                p.nac_params = _copy.deepcopy(nac)
+
+        def hit(site, klass, what):
+            run.count("%s / %s" % (site, klass), section="oracle")
+            if (site, klass) not in found:
+                found[(site, klass)] = (what, dict(case))
+
+        # a history on the original first (the copy is taken from an object that has been used)
+        ph.force_constants = np.array(fc * 1.1, dtype="double", order="C")
+        ph.run_qpoints(QS)
+        give(ph)
+        ref = all_answers(ph)
+        for label, other in (("copy()", ph.copy()), ("a fresh object built with the same options", build())):
+            site = "Phonopy.copy" if label == "copy()" else "Phonopy.run_qpoints"
+            klass_cells = "copy-differs" if label == "copy()" else "stale-state"
+            for cn in ("unitcell", "supercell", "primitive"):
+                a, b = getattr(ph, cn), getattr(other, cn)
+                if (len(a) != len(b) or list(a.numbers) != list(b.numbers) or not close(a.cell, b.cell, 1e-12)
+                        or not close(a.scaled_positions, b.scaled_positions, 1e-12)):
+                    hit(site, klass_cells, "%s of an object built with %r and supercell matrix %r: its %s differs from the original's "
+                        "(atoms in another order or at other positions), so force constants given to it belong to other atoms" % (label, opts, smat, cn))
+            if not np.array_equal(np.array(ph.supercell_matrix), np.array(other.supercell_matrix)) or not close(ph.primitive_matrix, other.primitive_matrix, 1e-12):
+                hit(site, klass_cells, "%s: supercell / primitive matrix differs from the original's" % label)
+            if abs(ph.unit_conversion_factor - other.unit_conversion_factor) > 1e-12 * abs(ph.unit_conversion_factor):
+                hit(site, klass_cells, "%s: unit conversion factor %r vs %r" % (label, other.unit_conversion_factor, ph.unit_conversion_factor))
+            if len(ph.symmetry.symmetry_operations["rotations"]) != len(other.symmetry.symmetry_operations["rotations"]):
+                hit(site, klass_cells, "%s: %d symmetry operations vs %d of the original" % (label, len(other.symmetry.symmetry_operations["rotations"]),
+                                                                                        len(ph.symmetry.symmetry_operations["rotations"])))
+            give(other)
+            got = all_answers(other)
+            for k in ref:
+                tol = 1e-6 if k == "group velocities" else TOL
+                if not close(got[k], ref[k], tol):
+                    hit(site, "copy-answers-differently" if label == "copy()" else "stale-state",
+                        "%s of an object built with %r, supercell matrix %r, given the same force constants, NAC parameters and masses: %s differ from the original's by %.3g"
+                        % (label, opts, smat, k, float(np.abs(np.asarray(got[k]) - np.asarray(ref[k])).max()) if np.shape(got[k]) == np.shape(ref[k]) else float("inf")))
+        run.case(("option-copy", crystal, repr(smat), pmat, repr(sorted(opts.items())), case["nac"]), nontrivial=True)
+        run.count("copy() of objects built with non-default options (%s)" % ", ".join(sorted(opts)) if opts else "copy() of objects built with a non-diagonal supercell matrix")
+        run.count("copies / fresh objects compared on every query", 2, section="oracle")
+    for (site, klass), (what, case) in sorted(found.items()):
+        run.violation(site, klass, what, case)
+
+
+# --------------------------------------------------------------------------
 # two objects given the same caller containers (oracle only)
 # --------------------------------------------------------------------------
 
@@ -1840,6 +2111,13 @@ def main(run):
         run.violation(s_, c_, what, dict(world=w.describe(), dm_class=cls, two_objects=True,
                                          script=[("A" if o == 0 else "B") + "." + " ".join(map(str, op)) for o, op in sc[: si + 1]],
                                          note="A and B are handed the same caller dataset dict / masses list / nac dict / fc array (harness/props/c15.py: run_pair)"))
+
+    t0 = time.time()
+    option_copies(run, run.seed, thorough)
+    run.cov["option_copies_wall_s"] = round(time.time() - t0, 1)
+    t0 = time.time()
+    error_paths(run, worlds[:2], run.seed, thorough)
+    run.cov["error_paths_wall_s"] = round(time.time() - t0, 1)
 
     if ctor_hits:
         # representation-level condition (the stored matrix is a view of the caller's array): an observation, not a verdict
